@@ -324,6 +324,10 @@ fn check_output<F: AdFrame>(m: &Model, id: u32, p: u128, got: F, obs: &mut Obser
     // position is stated "up to float rounding": it goes through the tolerance path below (slack 0 here).
     if klo == khi && m.dyadic && (!m.linear || frac_exact == 0.0) {
         let want: F = expected(m, id, klo, frac_exact);
+        // the linear interpolator goes through f64: for the 64-bit formats a frame with more than 53
+        // significant bits comes back rounded ("up to float rounding") — or untouched, if an implementation
+        // returns the frame itself at fraction 0.  Both are the source frame in the property's sense.
+        let want = if m.linear && got == src_frame::<F>(id, m.len, klo) { got } else { want };
         check_eq!(
             obs,
             got,
